@@ -23,7 +23,8 @@ the loop locals of every checked fit) these are what the property says they are:
    `aicc_sub_aic`, `gamma_default`, `gcv_def`, `ubre_def`, `ubre_add_scale`, `gcvUbre_known`, `gcvUbre_unknown`,
    `explained_le_one`, `explained_eq_one_iff`, `explained_scale_free`, `mcFadden_def`, `mcFaddenAdj_eq`,
    `devResid_sq`, `devResid_sign_pos`, `devResid_sign_neg`, `devResid_eq_zero`, `accuracy_mem_unit`,
-   `centre_sum_zero`, `pValue_known`, `pValue_estimated`, `pValue_mem_unit`.
+   `centre_sum_zero`, `pValue_known`, `pValue_estimated`, `pValue_mem_unit`; and for the bundle `Stats.scalars` the driver
+   evaluates: `scalars_scale`, `scalars_aic`, `scalars_aicc_sub_aic`, `scalars_known`, `scalars_estimated`, `scalars_r2`.
 
 Not proved (contracts / trusted parameters): LAPACK `qr`, `svd`, Cholesky; SciPy `pinv`, `chi2.cdf`, `f.cdf`,
 `logpdf/logpmf` normalisers; IEEE rounding (the float code is tied to these exact-field statements by the
@@ -350,6 +351,62 @@ theorem devResid_eq_zero (fam : Family) (levels scale : ℝ) (scaled : Bool) (w 
   unfold devResid signOf; simp
 
 end resid
+
+/-! ### the scalar part of `statistics_` as one function (`Stats.scalars`, what the driver evaluates) -/
+section scalarsThm
+variable {α : Type} [Field α] [LinearOrder α] [IsStrictOrderedRing α] [HasLogSqrt α]
+
+/-- `statistics_['scale']` is `Distribution.phi` -/
+theorem scalars_scale (known : Option α) (fam : Family) (levels : α) (n : Nat) (edof : α) (w y mu : Nat → α)
+    (ll ll0 : α → α) :
+    (scalars known fam levels n edof w y mu ll ll0).scale = phi known fam levels n edof w y mu := rfl
+
+/-- `statistics_['AIC'] = -2ℓ(φ) + 2·edof + 2·[scale estimated]`, the log-likelihood being evaluated at the reported scale -/
+theorem scalars_aic (known : Option α) (fam : Family) (levels : α) (n : Nat) (edof : α) (w y mu : Nat → α)
+    (ll ll0 : α → α) :
+    (scalars known fam levels n edof w y mu ll ll0).aic
+      = -2 * ll (phi known fam levels n edof w y mu) + 2 * edof + (if known.isNone then 2 else 0) := by
+  simp only [scalars, aic_def]
+
+/-- `statistics_['AICc'] - statistics_['AIC'] = 2(edof+1)(edof+2)/(n - edof - 2)` -/
+theorem scalars_aicc_sub_aic (known : Option α) (fam : Family) (levels : α) (n : Nat) (edof : α) (w y mu : Nat → α)
+    (ll ll0 : α → α) :
+    (scalars known fam levels n edof w y mu ll ll0).aicc - (scalars known fam levels n edof w y mu ll ll0).aic
+      = 2 * (edof + 1) * (edof + 2) / ((n : α) - edof - 2) := by
+  simp only [scalars]; exact aicc_sub_aic _ _ _
+
+/-- known scale `s`: `GCV = None`, `UBRE = D/n + 2·(7/5)·edof·s/n` with `D` the unscaled weighted deviance -/
+theorem scalars_known (s : α) (fam : Family) (levels : α) (n : Nat) (edof : α) (w y mu : Nat → α)
+    (ll ll0 : α → α) :
+    (scalars (some s) fam levels n edof w y mu ll ll0).gcv = none ∧
+    (scalars (some s) fam levels n edof w y mu ll ll0).ubre
+      = some (totalDeviance fam levels s false n w y mu / (n : α) + 2 * (7 / 5) * edof * s / (n : α)) := by
+  constructor
+  · rfl
+  · simp only [scalars, gcvUbre, Option.isSome_some, if_true, phi]
+    rw [(ubre_add_scale _ _ _ _ _).1, gamma_default]
+
+/-- estimated scale: `UBRE = None`, `GCV = n·D / (n - (7/5)·edof)²` -/
+theorem scalars_estimated (fam : Family) (levels : α) (n : Nat) (edof : α) (w y mu : Nat → α)
+    (ll ll0 : α → α) :
+    (scalars none fam levels n edof w y mu ll ll0).ubre = none ∧
+    (scalars none fam levels n edof w y mu ll ll0).gcv
+      = some ((n : α) * totalDeviance fam levels (phi none fam levels n edof w y mu) false n w y mu
+          / ((n : α) - 7 / 5 * edof) ^ 2) := by
+  constructor
+  · rfl
+  · simp only [scalars, gcvUbre, Option.isSome_none, Bool.false_eq_true, if_false]
+    rw [gcv_def, gamma_default]
+
+/-- `pseudo_r2` and `deviance` entries -/
+theorem scalars_r2 (known : Option α) (fam : Family) (levels : α) (n : Nat) (edof : α) (w y mu : Nat → α)
+    (ll ll0 : α → α) :
+    let S := scalars known fam levels n edof w y mu ll ll0
+    S.mcFadden = 1 - ll S.scale / ll0 S.scale ∧ S.mcFaddenAdj = 1 - (ll S.scale - edof) / ll0 S.scale ∧
+    S.explained = r2Explained fam levels S.scale n w y mu ∧
+    S.deviance = totalDeviance fam levels S.scale true n w y mu := ⟨rfl, rfl, rfl, rfl⟩
+
+end scalarsThm
 
 /-! ### non-vacuity: an instance of the contracts with fewer rows than coefficients
 (`n = k = 1 < m = 2`, `WB = [3 0]`, `A = diag(16, 25)`, `d = (5, 5)`, `edof = 9/25`) together with the row
